@@ -321,12 +321,11 @@ func (ft *funcTr) rangeStmt(s *ast.RangeStmt, rest []ast.Stmt, m mode, ind strin
 		t.fail(s, "range with = (assignment to existing variables)")
 	}
 	tv := t.info.Types[s.X]
-	var elemT types.Type
-	switch t.kindOf(tv.Type) {
-	case kBytes, kSlice:
-		elemT = types.Unalias(tv.Type).Underlying().(*types.Slice).Elem()
+	xkind := t.kindOf(tv.Type)
+	switch xkind {
+	case kBytes, kSlice, kString, kInt:
 	default:
-		t.fail(s.X, "range over a value of type %s (only slices are supported)", tv.Type)
+		t.fail(s.X, "range over a value of type %s (only slices, strings and ints are supported)", tv.Type)
 	}
 	varOf := func(e ast.Expr) *types.Var {
 		if e == nil {
@@ -360,22 +359,45 @@ func (ft *funcTr) rangeStmt(s *ast.RangeStmt, rest []ast.Stmt, m mode, ind strin
 	if t.needFuel[ft.name] {
 		fuelB, fuelA = "(fuel : nat)", "fuel"
 	}
-	keyB, keyNext, keyStart := "", "", ""
-	if keyV != nil {
-		keyB = fmt.Sprintf("(%s : Z)", ft.names[keyV])
-		keyNext = fmt.Sprintf("(%s + 1)%%Z", ft.names[keyV])
-		keyStart = "0%Z"
+	nameOr := func(v *types.Var) string {
+		if v == nil {
+			return "_"
+		}
+		return ft.names[v]
 	}
-	valP := "_"
-	if valV != nil {
-		valP = ft.names[valV]
+	// the list the loop runs over, the pattern of one element, and (slices) the index counter
+	var listT, elemP string
+	keyB, keyNext, keyStart := "", "", ""
+	switch xkind {
+	case kBytes, kSlice:
+		// for i, v := range x: the elements in order, i counted from 0
+		listT = "list " + t.coqType(s, types.Unalias(tv.Type).Underlying().(*types.Slice).Elem())
+		elemP = nameOr(valV)
+		if keyV != nil {
+			keyB = fmt.Sprintf("(%s : Z)", ft.names[keyV])
+			keyNext = fmt.Sprintf("(%s + 1)%%Z", ft.names[keyV])
+			keyStart = "0%Z"
+		}
+	case kString:
+		// for i, c := range s: the (byte offset, rune) pairs of Go's UTF-8 decoding of s
+		listT = "list (Z * Z)"
+		elemP = "(" + nameOr(keyV) + ", " + nameOr(valV) + ")"
+		x = "(go_runes " + x + ")"
+	case kInt:
+		// for i := range n: 0 .. n-1 (n evaluated once)
+		if s.Value != nil {
+			t.fail(s, "range over an int with two variables")
+		}
+		listT = "list Z"
+		elemP = nameOr(keyV)
+		x = "(go_int_range " + x + ")"
 	}
 	in := "    "
 	var f strings.Builder
 	fmt.Fprintf(&f, "(* func %s: range loop %d *)\n", ft.name, ft.nloop)
 	fmt.Fprintf(&f, "Fixpoint %s {L : Type} %s {struct l}\n  : res (outcome %s L %s) :=\n", name,
-		join(fuelB, ft.binders(ro), "(l : list "+t.coqType(s, elemT)+")", keyB, ft.binders(vars)), S, ft.resultType())
-	fmt.Fprintf(&f, "  match l with\n  | [] => Ok (Normal %s)\n  | %s :: l' =>\n", ft.tuple(vars), valP)
+		join(fuelB, ft.binders(ro), "(l : "+listT+")", keyB, ft.binders(vars)), S, ft.resultType())
+	fmt.Fprintf(&f, "  match l with\n  | [] => Ok (Normal %s)\n  | %s :: l' =>\n", ft.tuple(vars), elemP)
 	bodyMode := mode{kind: mOut, vars: vars, inLoop: true, loop: vars}
 	body := ft.block(s.Body.List, bodyMode, in+"  ")
 	fmt.Fprintf(&f, "%sbindL (\n%s%s) (fun %s =>\n%s%s)\n", in, body, in, ft.pattern(vars), in,
